@@ -33,6 +33,18 @@ fn one(i: usize, lens: &[usize], seed: u64) -> Out {
     let delta_b: Vec<[u8; 16]> = (0..len).map(|j| if j % 3 == 0 { [0u8; 16] } else { rng.random() }).collect();
     let c_a = mk_choice(&mut rng);
     let c_b = mk_choice(&mut rng);
+    // the choice bits are handed over as a window of a larger buffer (not necessarily starting at an
+    // allocation / word boundary)
+    let off_a = (i / 3) % 8;
+    let off_b = (i / 5) % 8;
+    let window = |c: &Vec<bool>, off: usize, rng: &mut ChaCha8Rng| -> Vec<bool> {
+        let mut b: Vec<bool> = (0..off).map(|_| rng.random()).collect();
+        b.extend_from_slice(c);
+        b.extend((0..(8 - off)).map(|_| rng.random::<bool>()));
+        b
+    };
+    let buf_a = window(&c_a, off_a, &mut rng);
+    let buf_b = window(&c_b, off_b, &mut rng);
     let session_seed: [u8; 32] = rng.random();
     let (net, chans) = SimChan::new_set(2, if i % 3 == 0 { Some(1) } else { None });
     let a_first = order == "sender-then-receiver";
@@ -40,7 +52,7 @@ fn one(i: usize, lens: &[usize], seed: u64) -> Out {
         let mut futs: Vec<PartyFut<'_, R>> = vec![];
         for p in 0..2usize {
             let ch = &chans[p];
-            let (my_delta, my_choice) = if p == 0 { (&delta_a, &c_a) } else { (&delta_b, &c_b) };
+            let (my_delta, my_choice) = if p == 0 { (&delta_a, &buf_a[off_a..off_a + len]) } else { (&delta_b, &buf_b[off_b..off_b + len]) };
             futs.push(Box::pin(async move {
                 let mut shared = ChaCha20Rng::from_seed(session_seed);
                 let deltas: Vec<Block> = my_delta.iter().map(|d| Block::from(*d)).collect();
@@ -109,7 +121,7 @@ pub fn lengths(thorough: bool) -> Vec<usize> {
 pub fn run(tier: &str, seed: u64) -> i32 {
     let thorough = tier == "thorough";
     let mut rep = Report::new("C11", tier, seed, "exploration");
-    rep.rule = "correlated KOS OT over a simulated channel: for every length (1..300 and 8k+-1, 128k+-1 up to 4097 in quick; every length 1..4096 in thorough) two back-to-back sessions on one channel sharing one session RNG, in both orders (sender-then-receiver, receiver-then-sender), choice vectors all-0 / all-1 / alternating / random, per-index distinct correlations incl. zero. Oracle: both result vectors have the requested length and recv[i] == send0[i] ^ (c[i] ? correlation[i] : 0) with the big-endian block convention. distinct = (length, order, choice class); every case is non-trivial".into();
+    rep.rule = "correlated KOS OT over a simulated channel: for every length (1..300 and 8k+-1, 128k+-1 up to 4097 in quick; every length 1..4096 in thorough) two back-to-back sessions on one channel sharing one session RNG, in both orders (sender-then-receiver, receiver-then-sender), choice vectors all-0 / all-1 / alternating / random handed over as windows of a larger buffer at byte offsets 0..7, per-index distinct correlations incl. zero. Oracle: both result vectors have the requested length and recv[i] == send0[i] ^ (c[i] ? correlation[i] : 0) with the big-endian block convention. distinct = (length, order, choice class); every case is non-trivial".into();
     rep.assumptions = vec!["block_to_u128 big-endian convention as used for delta".into()];
     let lens = lengths(thorough);
     let total = lens.len() * if thorough { 4 } else { 3 };
